@@ -2030,6 +2030,16 @@ pub enum PropertyKey {
 }
 
 impl PropertyKey {
+    /// The numeric value of a key that is an array index (an integer below 2^32 - 1); such keys
+    /// are enumerated before all other keys, in ascending order.
+    #[inline]
+    pub fn array_index(&self) -> Option<u32> {
+        match self {
+            PropertyKey::Index(i) if *i != u32::MAX => Some(*i),
+            _ => None,
+        }
+    }
+
     pub fn from_value(value: &JsValue) -> Self {
         match value {
             JsValue::Number(n) => {
@@ -2349,6 +2359,10 @@ impl PropertyStorage {
     }
 
     /// Insert or update a property. Returns the old value if the key existed.
+    ///
+    /// New keys are stored in the order of OrdinaryOwnPropertyKeys: array indices first, in
+    /// ascending numeric order, then the other keys in insertion order. Every enumeration
+    /// (Object.keys, for-in, spread, JSON, ...) simply walks the storage.
     pub fn insert(&mut self, key: PropertyKey, value: Property) -> Option<Property> {
         match self {
             PropertyStorage::Inline { len, entries } => {
@@ -2362,9 +2376,25 @@ impl PropertyStorage {
                     }
                 }
 
+                let pos = match key.array_index() {
+                    Some(index) => entries
+                        .get(..current_len)
+                        .unwrap_or_default()
+                        .iter()
+                        .take_while(|(k, _)| k.array_index().is_some_and(|i| i < index))
+                        .count(),
+                    None => current_len,
+                };
+
                 // Key doesn't exist - try to add inline
-                if let Some(slot) = entries.get_mut(current_len) {
-                    *slot = (key, value);
+                if current_len < INLINE_PROPERTY_CAPACITY {
+                    if let Some(slot) = entries.get_mut(current_len) {
+                        *slot = (key, value);
+                    }
+                    // Move the new entry down to its position
+                    for j in (pos..current_len).rev() {
+                        entries.swap(j, j + 1);
+                    }
                     *len += 1;
                     return None;
                 }
@@ -2381,11 +2411,48 @@ impl PropertyStorage {
                     );
                     map.insert(k, v);
                 }
-                map.insert(key, value);
+                map.shift_insert(pos, key, value);
                 *self = PropertyStorage::Map(map);
                 None
             }
-            PropertyStorage::Map(map) => map.insert(key, value),
+            PropertyStorage::Map(map) => {
+                if let Some(index) = key.array_index()
+                    && !map.contains_key(&key)
+                {
+                    // The array indices form a sorted prefix of the map
+                    let is_index_at = |i: usize| {
+                        map.get_index(i)
+                            .is_some_and(|(k, _)| k.array_index().is_some())
+                    };
+                    let (mut lo, mut hi) = (0usize, map.len());
+                    while lo < hi {
+                        let mid = lo + (hi - lo) / 2;
+                        if is_index_at(mid) {
+                            lo = mid + 1;
+                        } else {
+                            hi = mid;
+                        }
+                    }
+                    let (mut lo, mut hi) = (0usize, lo);
+                    while lo < hi {
+                        let mid = lo + (hi - lo) / 2;
+                        let smaller = map
+                            .get_index(mid)
+                            .and_then(|(k, _)| k.array_index())
+                            .is_some_and(|i| i < index);
+                        if smaller {
+                            lo = mid + 1;
+                        } else {
+                            hi = mid;
+                        }
+                    }
+                    if lo < map.len() {
+                        map.shift_insert(lo, key, value);
+                        return None;
+                    }
+                }
+                map.insert(key, value)
+            }
         }
     }
 
